@@ -1956,3 +1956,34 @@ func init() {
 		}),
 	)
 }
+
+func init() {
+	extend("C02", "R02i (added after a seeded change was missed): in the node hash functions every cut of a child hash to its digest is guarded by a length test on that same child hash — a parent can have one bare and one height-prefixed child (a single-key first commit leaves a bare leaf), so the two children must be cut independently.",
+		rule("R02i", "each child hash is cut behind its own length test", 4, func(r *Run) {
+			core.MayPanic{
+				Funcs: []string{"types.(*LeafNode).Hash", "types.(*InnerNode).Hash"},
+				Trusted: map[string]string{
+					"types.Encode":  "deterministic protobuf encoding of a message with only bytes/int32 fields",
+					"common.Sha256": "hash of a byte slice",
+				},
+				SkipNilDeref: true,
+				Min:          4,
+			}.Check(r)
+		}),
+	)
+	extend("C07", "R07j (added after a seeded change was missed): the page counter counts collected entries only — its increment sits behind the same 'live entry' test as the collection, so tombstones never use up a page.",
+		rule("R07j", "the page counter advances only for a live entry", 3, func(r *Run) {
+			live := isFalse("live-entry", dbp+"isdeleted")
+			isCounter := func(c *core.Ctx, e ast.Expr) bool {
+				id, ok := ast.Unparen(e).(*ast.Ident)
+				return ok && !core.Mentions("param:1", "param:2", "param:3")(c, id) && c.Info.TypeOf(e) != nil && c.Info.TypeOf(e).String() == "int32"
+			}
+			for _, fn := range []string{lh + "IteratorScan", lh + "iteratorScan", lh + "IteratorCallback"} {
+				core.Dominated{Fn: fn, Spec: spec(live), Sink: core.SinkPred{Label: "page counter ++", Match: func(fl *core.Flow, n *core.GNode) bool {
+					inc, ok := n.Ast.(*ast.IncDecStmt)
+					return ok && inc.Tok == token.INC && isCounter(fl.C, inc.X) && n.Block.Kind.String() != "ForPost"
+				}}, Need: []Fact{"live-entry"}, Min: 1}.Check(r)
+			}
+		}),
+	)
+}
